@@ -25,6 +25,20 @@ Definition parse_sv (l : list tok) : option svcase :=
   | _ => None
   end.
 
+(* SVA buf off1 len1 off2 len2 pos n pos2 n2 ch: both operands are slices of ONE buffer (the views may start at the
+   same address, be identical, nested or overlapping); the model and the SPEC only see the byte contents *)
+Definition parse_sva (l : list tok) : option svcase :=
+  match l with
+  | [TB buf; TZ o1; TZ l1; TZ o2; TZ l2; TZ pos; TZ n; TZ pos2; TZ n2; TZ ch] =>
+      match z_nat o1, z_nat l1, z_nat o2, z_nat l2, z_N pos, z_N n, z_N pos2, z_N n2, z_byte ch with
+      | Some o1, Some l1, Some o2, Some l2, Some pos, Some n, Some pos2, Some n2, Some ch =>
+          if Nat.leb (o1 + l1) (length buf) && Nat.leb (o2 + l2) (length buf)
+          then Some (mksv (slice buf o1 l1) (slice buf o2 l2) pos n pos2 n2 ch) else None
+      | _, _, _, _, _, _, _, _, _ => None
+      end
+  | _ => None
+  end.
+
 Definition parse_sp (l : list tok) : option spcase :=
   match l with
   | [TB buf; TZ off; TZ cnt; TZ idx; TZ v; TZ ext] =>
@@ -79,7 +93,7 @@ Definition parse_vop (l : list tok) : option vop :=
       match z_nat d with
       | None => None
       | Some d => if is_tag "vempthrow" t then Some (VEmpThrow d) else if is_tag "vidx" t then Some (VIdx d)
-                  else if is_tag "vvis" t then Some (VVis d) else None
+                  else if is_tag "vvis" t then Some (VVis d) else if is_tag "vself" t then Some (VSelf d) else None
       end
   | [t; TZ d; TZ x] =>
       match z_nat d with
@@ -125,6 +139,7 @@ Definition parse_case (l : list tok) : option case :=
   match l with
   | t :: rest =>
       if is_tag "SV" t then option_map CSV (parse_sv rest)
+      else if is_tag "SVA" t then option_map CSV (parse_sva rest)
       else if is_tag "SP" t then option_map CSP (parse_sp rest)
       else if is_tag "PT" t then option_map CPT (parse_all parse_pop (op_segs rest))
       else if is_tag "VR" t then option_map CVR (parse_all parse_vop (op_segs rest))
@@ -220,9 +235,19 @@ Definition pop_is_self (op : pop) : bool :=
   | UMa d s | USwap d s | SCa d s | SMa d s | SSwap d s => Nat.eqb d s
   | _ => false
   end.
+Definition sva_tag (l : list tok) : option string :=
+  match l with
+  | t :: _ :: TZ o1 :: TZ l1 :: TZ o2 :: TZ l2 :: _ =>
+      if is_tag "SVA" t
+      then Some (if Z.eqb o1 o2 then (if Z.eqb l1 l2 then "sva_identical"%string
+                                      else if Z.eqb l1 0 || Z.eqb l2 0 then "sva_same_start_empty"%string else "sva_same_start"%string)
+                 else if (o1 + l1 <=? o2) || (o2 + l2 <=? o1) then "sva_disjoint"%string else "sva_overlap"%string)
+      else None
+  | _ => None
+  end.
 Definition run_tag (l : list tok) : list tok :=
   match parse_case l with
-  | Some (CSV c) => [tag (sv_tag c)]
+  | Some (CSV c) => [tag (match sva_tag l with Some s => s | None => sv_tag c end)]
   | Some (CSP c) => [tag (if Nat.eqb (sp_cnt c) 0 then "sp_empty"
                           else if negb (Nat.eqb (sp_cnt c) (sp_ext c)) then "sp_fixed_mismatch"
                           else if Nat.ltb (sp_idx c) (sp_cnt c) then "sp_index_in" else "sp_index_out")]
